@@ -405,36 +405,20 @@ Lemma nan_default_example :
   to_dict_model nan_opts nan_fields nan_vals = Some [("m", PNone); ("s", PStr "q")].
 Proof. repeat split; reflexivity. Qed.
 
-(* vals_ok is the narrower domain *)
-Lemma vals_ok_sem fs vs : vals_ok fs vs = true -> vals_sem fs vs = true.
-Proof.
-  unfold vals_ok, vals_sem. intros H. apply andb_true_iff in H. destruct H as [Hl H].
-  rewrite Hl. cbn. rewrite forallb_forall in *. intros r Hr. specialize (H r Hr).
-  unfold row_ok, row_sem, admits_none in *. apply orb_true_iff in H. destruct H as [H|H].
-  - apply andb_true_iff in H. destruct H as [Hn Hi]. rewrite Hn, Hi, orb_true_r. reflexivity.
-  - rewrite H. apply orb_true_r.
-Qed.
-
-Theorem project_full_sem_refuted :
-  ~ (forall o fs vs, kw_ok o = true -> vals_sem fs vs = true -> project_statement o fs vs).
-Proof.
-  intros H. apply project_full_refuted. intros o fs vs Hk Hv. apply H; [exact Hk | now apply vals_ok_sem].
-Qed.
-
-(* a union of three or more members one of which is None: the field may hold None, but
-   is_field_nullable (is_optional: exactly two members) does not see it, so omit_none keeps the key *)
+(* a union of three or more members one of which is None (formerly known finding
+   omit-none-wide-union, repaired in /repo 906a805): nullable like Optional, omit_none drops its None *)
 Definition wide_opts : opts :=
   {| o_call := None; o_cfgd := None; o_cfg := {| n_on := T; n_od := U; n_ba := U |}; o_dd := None; o_sort := false;
      o_fon := false; o_fba := false; o_fdl := false; o_fcx := false; o_kon := None; o_kba := None |}.
 Definition wide_fields : list fplan :=
   [ {| p_name := "u"; p_alias := None; p_ty := TyUnionNone; p_trivial := true; p_default := DNo; p_omit := false |};
-    {| p_name := "o"; p_alias := None; p_ty := TyAnnotated (TyFinal TyOptional); p_trivial := true; p_default := DNo; p_omit := false |} ].
-Definition wide_vals : list fval := [(PNone, PNone); (PNone, PNone)].
+    {| p_name := "o"; p_alias := None; p_ty := TyAnnotated (TyFinal TyOptional); p_trivial := true; p_default := DNo; p_omit := false |};
+    {| p_name := "w"; p_alias := None; p_ty := TyFinal TyUnionNone; p_trivial := false; p_default := DNo; p_omit := false |} ].
+Definition wide_vals : list fval := [(PNone, PNone); (PNone, PNone); (POpq 1, PStr "2020-01-01")].
 
-Theorem wide_union_refuted :
-  kw_ok wide_opts = true /\ vals_sem wide_fields wide_vals = true /\ flag_defaults_ok wide_opts = true /\
-  to_dict_model wide_opts wide_fields wide_vals = Some [("u", PNone)] /\
-  project (eff_of wide_opts) wide_fields wide_vals (plain_out wide_fields wide_vals) = [].
+Lemma wide_union_example :
+  kw_ok wide_opts = true /\ vals_ok wide_fields wide_vals = true /\ flag_defaults_ok wide_opts = true /\
+  to_dict_model wide_opts wide_fields wide_vals = Some [("w", PStr "2020-01-01")].
 Proof. repeat split; reflexivity. Qed.
 
 (* the corner is exactly D14: outside flag_defaults_ok the body still projects, but with the
